@@ -161,3 +161,25 @@ package tar
 //@   ensures "large-file" [C12] implies(!old(cancelled(fs.callerCtx)) && old(prepErr(mkdirAll, header)) == nil && !old(hIsDir(header)) && old(firstErr(r)) == nil && !old(announced(rp(header.Name))),
 //@                     iff(err == nil, announced(rp(header.Name))))
 //@   nopanic
+
+// ---- the reader loop: stops at the first failure of the archive reader or of an entry ----
+// (what the background writers report through the error channel is received by a select whose readiness and
+// value are arbitrary here: the senders are the function literals above; interleaving is not modelled)
+//@ extern archive/tar.NewReader(r io.Reader) (tr *tar.Reader)
+//@   ensures "reader" tr != nil && fresh(tr)
+//@ extern archive/tar.(*Reader).Next() (h *tar.Header, err error)
+//@   requires self != nil
+//@   modifies world()
+//@   ensures "header" implies(err == nil, h != nil)
+//@ func newBufferPool(bufferSize uint64, maxBuffers uint64) (p *bufferPool)
+//@   assumed
+//@   ensures "pool" p != nil && fresh(p)
+
+//@ func (fs *ReaderFS) readErr(r io.Reader) (err error)
+//@   props C12 C14
+//@   requires fs != nil && fs.unarchiveFS != nil && fs.ps != nil && fs.callerCtx != nil && r != nil
+//@   modifies world(), ghost("G|emitted")
+//@   propagates [C12 C14] readProcessFile
+//@   propagates [C12 C14] Next unless e == io.EOF
+//@   loop 1 invariant "entries-so-far-processed" !failed("readProcessFile") && !failed("Next") && fs != nil && fs.unarchiveFS != nil && fs.ps != nil && fs.callerCtx != nil
+//@   nopanic
